@@ -156,7 +156,18 @@ func classifyMapRange(p *packages.Package, fd *ast.FuncDecl, rs *ast.RangeStmt) 
 
 func runC05(c *core.Ctx) core.Meta {
 	c.Load(simPatterns...)
-	pkgs := c.RepoPkgs()
+	// only code that runs inside a simulation (also when the thorough tier loaded the whole module)
+	var pkgs []*packages.Package
+	for _, p := range c.RepoPkgs() {
+		rel := core.RelPkg(p.PkgPath)
+		for _, pat := range simPatterns {
+			pre := strings.TrimSuffix(strings.TrimPrefix(pat, "./"), "/...")
+			if rel == pre || strings.HasPrefix(rel, pre+"/") {
+				pkgs = append(pkgs, p)
+				break
+			}
+		}
+	}
 
 	// ---------------- R05.1 map iteration order ----------------
 	st1 := c.Rule("R05.1", "every range over a map in simulation code has an order-insensitive body (collect-then-sort, stores into maps/sets, integer accumulation) or a one-line exception stating why the result does not depend on the order; anything else (append to a slice that outlives the loop, Send/Schedule, allocation, early exit) makes results depend on Go's randomised map order", 6)
